@@ -14,13 +14,15 @@ ASSUMPTIONS = [
     "rule installation: the report must equal the model outcome of re-inserting the pages beneath the anchor in SOME order (all permutations tried, at most 6 pages beneath an anchor)",
     "bounds: 9 configurations (3 defaults x 3 rule sets), histories up to the depth reported per space",
 ]
-PROBES = [A, Ax, Axy, Axy + b"p:q|", Ab, Aw, Awx, S, Sx, Bb, C1, b"s:http|", b"s:http|h:org|", A + b"p:a|", b"s:ftp|h:com|h:a|p:x|", Bb + b"h:www|p:k|", b"s:https|h:com|h:b|h:c|p:z|"]
+PT = b"s:http|t:8080|h:com|h:a|"
+PTS = b"s:https|t:8080|h:com|h:a|"
+PROBES = [PT, PT + b"p:x|p:y|", PTS + b"h:www|", A, Ax, Axy, Axy + b"p:q|", Ab, Aw, Awx, S, Sx, Bb, C1, b"s:http|", b"s:http|h:org|", A + b"p:a|", b"s:ftp|h:com|h:a|p:x|", Bb + b"h:www|p:k|", b"s:https|h:com|h:b|h:c|p:z|"]
 
 
 class Check(HCheck):
     pid = ID
     predict_rules = True
-    owned = ("page", "pages", "links", "crawl", "rule", "unrule")
+    owned = ("page", "pages", "links", "crawl", "rule", "unrule", "rmprefix", "addprefix", "move")
     must_count = ("creation_predicted", "no_creation_predicted", "variations_partly_owned", "rule_install_with_pages", "potential_compared", "potential_from_rule", "potential_from_default", "potential_none", "created_by_rule_longer_than_E")
 
     def spaces(self, tier):
@@ -33,10 +35,16 @@ class Check(HCheck):
             al.page(Awx),
             al.page(Bb),
             al.page(C1),
+            al.page(PT + b"p:x|"),  # with a port stem: rules and variations must keep it
+            al.page(PTS + b"h:www|p:y|p:z|"),
             al.links((Ab, S + b"h:www|p:k|")),
             al.create(Aw),
             al.create(Ax),
             al.delete(0),
+            al.rmprefix(Ax),
+            al.rmprefix(A, "right"),
+            al.addprefix(Axy, 0),
+            al.move(Aw, 0),
             al.rule(A, "path1"),
             al.rule(Ax, "path2"),
             al.rule(Ax, "path1"),  # a page AT the anchor is itself matched by the rule
